@@ -115,6 +115,57 @@ theorem next_fresh_rel (limit : Nat) :
 
 end natural
 
+section drain
+variable {α β : Type} {Rel : α → β → Prop}
+  (cxa : Ctx α) (cxb : Ctx β) (hlim : cxa.limit = cxb.limit)
+  (hview : ∀ a b, Rel a b → ViewRel Rel (cxa.view a) (cxb.view b))
+  (sa : Array (Step α)) (sb : Array (Step β)) (hsteps : LRel (StepRel Rel) sa.toList sb.toList)
+  (srca : Src α) (srcb : Src β) (hsrc : NodeRel Rel srca.rootNode srcb.rootNode)
+include hlim hview hsteps hsrc
+
+/-- **the whole iteration, related**: draining iterators whose states are related (through
+the two bisimulations and the naturality relation) yields related matches, one for one and in
+the same order, and ends the same way -/
+theorem drain_rel (fuel : Nat) (st : St α) (st' : St β) (as : AS α) (bs : AS β)
+    (h1 : R sa st as) (h2 : R sb st' bs) (h3 : ASRel Rel as bs) :
+    LRel (NodeRel Rel) (drain cxa sa srca fuel st).1 (drain cxb sb srcb fuel st').1 ∧
+    (drain cxa sa srca fuel st).2 = (drain cxb sb srcb fuel st').2 := by
+  induction fuel generalizing st st' as bs with
+  | zero => exact ⟨.nil, rfl⟩
+  | succ fuel ih =>
+    obtain ⟨ea, ra⟩ := next_anext cxa.view sa srca cxb.limit st as h1
+    obtain ⟨eb, rb⟩ := next_anext cxb.view sb srcb cxb.limit st' bs h2
+    obtain ⟨q1, _, q3⟩ := anext_rel cxa.view cxb.view hview sa sb hsteps srca srcb hsrc cxb.limit h3
+    simp only [drain, nextOut, hlim]
+    rcases hna : next cxa.view sa srca cxb.limit st with ⟨ta, eva, sga⟩
+    rcases hnb : next cxb.view sb srcb cxb.limit st' with ⟨tb, evb, sgb⟩
+    rw [hna] at ea ra
+    rw [hnb] at eb rb
+    rcases haa : anext cxa.view sa srca cxb.limit as with ⟨ua, fa, ga⟩
+    rcases hab : anext cxb.view sb srcb cxb.limit bs with ⟨ub, fb, gb⟩
+    rw [haa] at ea ra q1 q3
+    rw [hab] at eb rb q1 q3
+    simp only [Prod.mk.injEq] at ea eb
+    obtain ⟨_, rfl⟩ := ea
+    obtain ⟨_, rfl⟩ := eb
+    simp only at q1 q3 ra rb
+    cases q3 with
+    | result hn =>
+      obtain ⟨i1, i2⟩ := ih ta tb ua ub ra rb q1
+      exact ⟨.cons hn i1, i2⟩
+    | none => exact ⟨.nil, rfl⟩
+    | stop => exact ⟨.nil, rfl⟩
+    | raised e => exact ⟨.nil, rfl⟩
+    | bug m => exact ⟨.nil, rfl⟩
+
+theorem drain_fresh_rel (fuel : Nat) :
+    LRel (NodeRel Rel) (drain cxa sa srca fuel freshIter).1 (drain cxb sb srcb fuel freshIter).1 ∧
+    (drain cxa sa srca fuel freshIter).2 = (drain cxb sb srcb fuel freshIter).2 :=
+  drain_rel cxa cxb hlim hview sa sb hsteps srca srcb hsrc fuel freshIter freshIter .init .init
+    (.init _ rfl) (.init _ rfl) .init
+
+end drain
+
 /-! ### the object store and the tree it unfolds to -/
 
 mutual
@@ -253,5 +304,18 @@ theorem getMatch_heap_notfound (h : Heap) (v : Val) (j : J) (hu : Unf h v j)
   simp only at hsig
   cases hsig with
   | stop => exact exhausted_all_x sb (.doc j) hp (wcx h).limit freshIter st2 [] [] evs2 (.nil _) hn2
+
+/-- **`find_matches` over the object store is `find_matches` over the tree**: the matches
+the writers' searches, `Match` handles (`h.new` = the k-th match), descriptors' `find` getter
+and iterator-typed attributes enumerate are, one for one and in order, at the locations of
+the matches of the same search over the unfolded tree, holding values that unfold to theirs;
+and the iteration ends the same way -/
+theorem heap_drain_is_tree_drain (h : Heap) (v : Val) (j : J) (hu : Unf h v j)
+    (sa : Array (Step Val)) (sb : Array (Step J)) (hsteps : LRel (StepRel (Unf h)) sa.toList sb.toList) (fuel : Nat) :
+    LRel (NodeRel (Unf h)) (drain (wcx h) sa (.doc v) fuel freshIter).1
+      (drain ({ view := J.view, toJ := id } : Ctx J) sb (.doc j) fuel freshIter).1 ∧
+    (drain (wcx h) sa (.doc v) fuel freshIter).2 =
+      (drain ({ view := J.view, toJ := id } : Ctx J) sb (.doc j) fuel freshIter).2 :=
+  drain_fresh_rel (wcx h) { view := J.view, toJ := id } rfl (unf_view h) sa sb hsteps (.doc v) (.doc j) (.root hu) fuel
 
 end Treepath
